@@ -315,6 +315,86 @@ func genCase(r *lib.Rng, id int64, tier string) Case {
 		marks = append(marks, m-npreLen)
 	}
 	c.Ops = partition(r, len(c.Data), marks, c.Npre, c.Nsamp)
+	if r.Chance(1, 4) {
+		setAlso(r, &c)
+	}
+	return c
+}
+
+// setAlso: the trigger state also has some of EdgeTrigger / LevelTrigger / AutoTrigger on, with a level the stream crosses
+func setAlso(r *lib.Rng, c *Case) {
+	c.Also = r.Range(1, 7)
+	lo, hi := 65535, 0
+	for _, v := range c.Data {
+		if v < lo {
+			lo = v
+		}
+		if v > hi {
+			hi = v
+		}
+	}
+	if hi < lo {
+		lo, hi = 1000, 1000
+	}
+	c.AlsoLevel = (lo + hi) / 2
+	if c.Signed {
+		c.AlsoLevel = (c.AlsoLevel + 32768) & 0xffff // levelTriggerComputeAppend shifts signed data and level by 2^15
+	}
+}
+
+// genStorm: 140-400 short clean pulses, small record lengths: more than 128 records out of ONE block
+func genStorm(r *lib.Rng, id int64, tier string) Case {
+	c := Case{ID: id, Kind: "storm"}
+	c.Npre = r.Pick([]int{3, 3, 4})
+	c.Nsamp = c.Npre + r.Pick([]int{4, 5, 5})
+	c.ZT = c.Npre >= 4 && r.Chance(1, 3)
+	c.Mode = r.Intn(3)
+	c.Thr = int32(r.Pick([]int{20, 50, -20, -50}))
+	c.Nmono = r.Pick([]int{1, 2})
+	if r.Chance(1, 3) {
+		c.F0 = int64(r.Range(1, 100000))
+	}
+	sign := 1
+	base := 2000
+	if c.Thr < 1 {
+		sign, base = -1, 50000
+	}
+	npulse := r.Range(140, 260)
+	if tier == "thorough" {
+		npulse = r.Range(140, 400)
+	}
+	b := &builder{r: r, sign: sign}
+	at := c.Npre + r.Range(0, 5)
+	var ats []int
+	for k := 0; k < npulse; k++ {
+		ats = append(ats, at)
+		at += r.Pick([]int{c.Nsamp + 1, c.Nsamp + 2, c.Nsamp + 5, c.Nsamp + 5, 2 * c.Nsamp, c.Nsamp - 2})
+	}
+	n := at + 3*c.Nsamp
+	b.v = make([]int, n)
+	for i := range b.v {
+		b.v[i] = base
+	}
+	for _, a := range ats {
+		b.pulse(a, 400+r.Range(0, 400), 2, 3)
+	}
+	c.Data = b.done()
+	// B: blocks of a few hundred samples (every block well below 128 edges), or cuts near the pulses
+	if r.Chance(1, 2) {
+		for left := n; left > 0; {
+			k := r.Range(150, 600)
+			if k > left {
+				k = left
+			}
+			c.Ops = append(c.Ops, k)
+			left -= k
+		}
+	} else {
+		c.Ops = cutsNear(r, n, ats, c.Npre, c.Nsamp, r.Range(4, 29))
+	}
+	if r.Chance(1, 4) {
+		setAlso(r, &c)
+	}
 	return c
 }
 
@@ -351,6 +431,10 @@ func flatRamp(n, flat, slope, L, base int) []int {
 	return d
 }
 
+func p2() []int {
+	return []int{0, 0, 0, 0, 0, 0, 0, 0, 10, 20, 0, 10, 20, 0, 0, 0, 0, 0, 0, 0, 0, 0, 0, 0, 0, 0, 0, 0, 0, 0, 0, 0}
+}
+
 func corpus() []Case {
 	var cs []Case
 	// the known defect: refinement on, ramp starting at stream index npre of the first block after configuration
@@ -376,6 +460,10 @@ func corpus() []Case {
 		dip[i] = 41297
 	}
 	cs = append(cs, Case{Npre: 3, Nsamp: 10, Thr: -1, Nmono: 1, Mode: 2, ZT: true, PreMode: 1, Pre: dip, PreCut: []int{36}, Data: dip, Ops: []int{36}, Kind: "corpus"})
+	// edge-multi is exclusive of the other trigger types: edge + level + auto also on (levels that would fire)
+	cs = append(cs, Case{Npre: 4, Nsamp: 10, Thr: 100, Nmono: 1, Mode: 1, Also: 7, AlsoLevel: 1500, Data: append(pl[60:], flatRamp(40, 10, 300, 3, 2800)...), Ops: []int{33, 33, 34}, Kind: "corpus"})
+	cs = append(cs, Case{Npre: 6, Nsamp: 16, Thr: 100, Nmono: 1, Mode: 0, ZT: true, Also: 5, AlsoLevel: 1500, Data: w, Ops: []int{40, 40}, Kind: "corpus"})
+	cs = append(cs, Case{Npre: 3, Nsamp: 6, Thr: 1, Nmono: 1, Mode: 2, Also: 3, AlsoLevel: 5, Data: p2(), Ops: []int{10, 22}, Kind: "corpus"})
 	// the repository's own examples, scaled to legal lengths: two pulses 3 apart, all three modes, cut between them
 	p := []int{0, 0, 0, 0, 0, 0, 0, 0, 10, 20, 0, 10, 20, 0, 0, 0, 0, 0, 0, 0, 0, 0, 0, 0, 0, 0, 0, 0, 0, 0, 0, 0}
 	for mode := 0; mode < 3; mode++ {
@@ -404,6 +492,14 @@ func gen(seed uint64, tier string) []interface{} {
 		c.ID = id
 		id++
 		out = append(out, c)
+	}
+	nstorm := 3
+	if tier == "thorough" {
+		nstorm = 40
+	}
+	for i := 0; i < nstorm; i++ {
+		out = append(out, genStorm(r.Fork(), id, tier))
+		id++
 	}
 	for i := 0; i < n; i++ {
 		if i%25 == 24 {
